@@ -83,13 +83,21 @@ func (x *exec) histC12() {
 			if len(l) == 0 {
 				continue
 			}
-			x.protoCurrent(i, l[st.H%len(l)])
+			h := l[st.H%len(l)]
+			if h.pos == 0 && !h.done {
+				x.protoNext(i, h)
+			}
+			x.protoCurrent(i, h)
 		case "wander":
 			l := live()
 			if len(l) == 0 {
 				continue
 			}
-			x.protoWander(i, l[st.H%len(l)], st.N, uint64(st.C))
+			h := l[st.H%len(l)]
+			if h.pos == 0 && !h.done {
+				x.protoNext(i, h)
+			}
+			x.protoWander(i, h, st.N, uint64(st.C))
 		case "extra":
 			l := live()
 			if len(l) == 0 {
@@ -117,7 +125,9 @@ func (x *exec) histC12() {
 			x.relations(i, ei, d, st.C)
 		}
 	}
-	x.res.Nontrivial = len(s.Steps) >= 2
+	// non-trivial: the run exercised the protocol on a sequence of two or more
+	// nodes, or checked the relations on one
+	x.res.Nontrivial = x.res.Stats.Probes["relations_on_2plus_nodes"] > 0 || x.res.Stats.Probes["handle_advanced_on_2plus"] > 0
 }
 
 // protoNext: one MoveNext against the cursor model.
@@ -141,6 +151,9 @@ func (x *exec) protoNext(step int, h *handle) {
 			x.viol("protocol", "protocol:sticky-false", fmt.Sprintf("%s(%s): MoveNext returned false and a later MoveNext gave %s", h.api, text, got), step)
 		}
 		return
+	}
+	if len(h.want.IDs) >= 2 && h.pos == 1 {
+		x.res.Stats.Probes["handle_advanced_on_2plus"]++
 	}
 	x.checkStep(step, h, ok, id, tail, text)
 	if len(x.res.Viol) > 0 {
